@@ -617,3 +617,19 @@ pub fn raw_scores(reader: &IndexReader, ranking: &Value, seen: &SearchResult) ->
   let res = run(reader, &r)?;
   Ok(res.hits.iter().map(|h| (h.doc_id.clone(), h.score)).collect())
 }
+
+/// structural equality of two JSON values with numbers compared by the float rule (DESIGN §3.5)
+pub fn value_close(a: &Value, b: &Value) -> bool {
+  match (a, b) {
+    (Value::Number(x), Value::Number(y)) => {
+      if x.is_f64() || y.is_f64() {
+        idx::close(x.as_f64().unwrap_or(f64::NAN), y.as_f64().unwrap_or(f64::NAN), 2e-5)
+      } else {
+        x == y
+      }
+    }
+    (Value::Array(x), Value::Array(y)) => x.len() == y.len() && x.iter().zip(y.iter()).all(|(p, q)| value_close(p, q)),
+    (Value::Object(x), Value::Object(y)) => x.len() == y.len() && x.iter().all(|(k, p)| y.get(k).map(|q| value_close(p, q)).unwrap_or(false)),
+    _ => a == b,
+  }
+}
